@@ -11,7 +11,7 @@ from sa.report import Ctx
 
 from .common import generic_sweeps
 
-from .sat_common import SatRoles, _enclosing_block, check_add_sites, check_assumption_assertion, check_backtrack, check_heap_flags, check_variable_universe
+from .sat_common import SatRoles, _enclosing_block, check_add_sites, check_assumption_assertion, check_assign, check_backtrack, check_heap_flags, check_variable_universe
 
 EXPLANATION = (
     "Decides structural necessary conditions of 'every returned assignment satisfies every clause / agrees with "
@@ -38,6 +38,7 @@ def run(ctx: Ctx):
     check_assumption_assertion(ctx, roles, "C01-O6")
     check_heap_flags(ctx, "C01-O7")
     check_variable_universe(ctx, "C01-O8")
+    check_assign(ctx, "C01-O9")
     generic_sweeps(ctx, skip_stutter_modules=("solvor/sat.py",))
 
 
@@ -279,6 +280,11 @@ def _v_universe_from_clauses_only(tree):
     M.replace_stmt(g, lambda s: isinstance(s, ast.For) and M.src_is(s.iter, "assumptions") and M.src_has(s, "n_vars = max(n_vars"), [])
 
 
+def _v_assign_level_of_previous(tree):
+    g = M.find_func(tree, "solve_sat.assign")
+    M.replace_expr(g, lambda e: M.src_is(e, "len(trail_lim)"), M.expr("len(trail_lim) - 1"))
+
+
 def _v_flag_kept_on_skip(tree):
     g = M.find_func(tree, "solve_sat.pick_var")
     M.replace_stmt(g, lambda s: M.src_is(s, "in_heap[var] = False"), [])
@@ -324,6 +330,7 @@ VARIANTS = [
     M.Variant("unassign_to sets the propagation head to the trail end on every call (seed C01-E)", SAT, _v_head_reset_to_trail_end, "C01-O7"),
     M.Variant("twin: unassign_to in single-exit form", SAT, _t_unassign_single_exit, None),
     M.Variant("variable count taken from the clauses only (original defect)", SAT, _v_universe_from_clauses_only, "C01-O8"),
+    M.Variant("assign records the previous decision level", SAT, _v_assign_level_of_previous, "C01-O9"),
     M.Variant("twin: reformat only", SAT, _t_reformat, None),
     M.Variant("twin: rename locals of the backtrack routine", SAT, _t_rename, None),
     M.Variant("twin: backtrack written as pop-and-cut loop", SAT, _t_pop_form, None),
